@@ -2,7 +2,8 @@
 # run every check (quick by default) on the current tree, 4 at a time; summary on stdout
 cd "$(dirname "$0")/.." || exit 2
 TIER=${1:-quick}
-mkdir -p /tmp/eav-runall
+LOGS=$(mktemp -d "${TMPDIR:-/tmp}/eav-runall.XXXXXX") || exit 2
 ls evidence >/dev/null 2>&1 || mkdir evidence
 for p in C01 C02 C03 C04 C05 C06 C07 C08 C09 C10 C11 C12 C13 C14 C15 C16 C17 C18 C19 C20; do echo $p; done | \
-  xargs -P 4 -I{} sh -c "./check {} --tier $TIER > /tmp/eav-runall/{}.log 2>&1; echo {} exit=\$? \$(grep -c VIOLATION /tmp/eav-runall/{}.log) violations \$(tail -1 /tmp/eav-runall/{}.log | sed 's/.*evals/evals/')"
+  xargs -P 4 -I{} sh -c "./check {} --tier $TIER > $LOGS/{}.log 2>&1; echo {} exit=\$? \$(grep -c VIOLATION $LOGS/{}.log) violations \$(tail -1 $LOGS/{}.log | sed 's/^.*: //')"
+if [ -n "$KEEP_LOGS" ]; then echo "logs in $LOGS"; else rm -rf "$LOGS"; fi
